@@ -144,6 +144,7 @@ def p_iso_string():
             conds = dotted_structure(base, frac, k, tz)
             conds.append(iso_axioms_dotted(base, frac, k, tz))
             _ISO_FORMS[s.get_id()] = ("dotted", k)
+            ex.__dict__.setdefault("witness_terms", {})[f"{name}@dotted:{k}"] = {"base": base, "frac": frac, "tz": tz}
             alts.append((z3.And(conds), VStr(s)))
         free = z3.String(f"{name}!any")
         _ISO_FORMS[free.get_id()] = ("any", "")
@@ -671,11 +672,11 @@ def p_seq_str(fname):
     return Maker(mk, desc="list[str] of any length")
 
 
-META = p_obj("SharePointFileMetadata", {
+P_META = p_obj("SharePointFileMetadata", {
     "name": p_str(), "id": p_str(), "web_url": p_str(), "download_url": p_unk(), "size": p_unk(), "mime_type": p_unk(),
     "last_modified": p_opt(p_str()), "created": p_opt(p_str()), "parent_path": p_opt(p_str()), "custom_fields": p_unk()})
 
-FILTER = p_obj("FileFilter", {
+P_FILTER = p_obj("FileFilter", {
     "created_after": p_opt(p_dt()), "created_before": p_opt(p_dt()),
     "modified_after": p_opt(p_dt()), "modified_before": p_opt(p_dt()),
     "folder_paths": p_unk(), "path_patterns": p_seq_str("path_patterns"), "extensions": p_seq_str("extensions")})
@@ -754,7 +755,7 @@ def part_a(reg):
     out = []
     out.append(FnContract(
         target=f"{CLIENT}::SharePointFileMetadata.get_full_path",
-        params=[("self", META)],
+        params=[("self", P_META)],
         returns=lambda c: VStr(full_path_spec(fields(c, "self"))),
         note="full path = parent_path/name, or name at the root",
     ))
@@ -767,7 +768,7 @@ def part_a(reg):
     ))
     out.append(FnContract(
         target=f"{CLIENT}::FileFilter.matches",
-        params=[("self", FILTER), ("file_meta", META)],
+        params=[("self", P_FILTER), ("file_meta", P_META)],
         requires=matches_requires,
         returns=lambda c: VBool(matches_spec(c)),
         raises=[],
@@ -902,6 +903,16 @@ def m_urlparse(ex, st, args, kwargs, node):
     return [(st, r)]
 
 
+QUOTE = z3.Function("url_quote", S, S)
+
+
+def m_quote(ex, st, args, kwargs, node):
+    """urllib.parse.quote: ASSUMED total on str (uninterpreted)."""
+    if args and isinstance(args[0], VStr):
+        return [(st, VStr(QUOTE(args[0].t)))]
+    return ex.havoc_call(st, "quote", args, node)
+
+
 def m_urlencode(ex, st, args, kwargs, node):
     return [(st, VStr(z3.String(fresh_name("urlencoded"))))]
 
@@ -970,6 +981,7 @@ def install_transport_models(reg):
     reg.ext_models[("new", "urllib.request.Request")] = m_new_request
     reg.ext_models["urllib.parse.urlencode"] = m_urlencode
     reg.ext_models["urllib.parse.urlparse"] = m_urlparse
+    reg.ext_models["urllib.parse.quote"] = m_quote
     reg.attr_models[("ParseResult", "netloc")] = lambda ex, st, o: VStr(NETLOC(st.ghost[("parsed", o.t.get_id())]))
     reg.attr_models[("ParseResult", "path")] = lambda ex, st, o: VStr(UPATH(st.ghost[("parsed", o.t.get_id())]))
     reg.ext_models["C18.http_error_read"] = m_http_error_read
@@ -1663,6 +1675,8 @@ def part_c(reg):
 
     # -- _get_folder_by_path (abstract folder lookup) ---------------------------------------------------------------
     def gfp_returns(c):
+        if not at_call_site(c):
+            return [(z3.BoolVal(True), c.result)]     # body: only shape / failure surface are verified (ensures, raises)
         ctx = ctx_of(c.args["site_id"], c.args["drive_id"])
         p = c.args["folder_path"].t
         return [(z3.Not(FP_FOUND(ctx, p)), NONE), (FP_FOUND(ctx, p), VExt("Json", FP_ITEM(ctx, p)))]
@@ -1670,16 +1684,23 @@ def part_c(reg):
     def gfp_shape(c):
         if at_call_site(c):
             token_after_success(c.ex, c.st, c)
-        if isinstance(c.result, VExt):
-            return z3.And(J_ISDICT(c.result.t), f_has_id(c.result.t))     # GRAPH-SHAPE: a drive item has a non-empty string id
-        return z3.BoolVal(True)
+            if isinstance(c.result, VExt):
+                return z3.And(J_ISDICT(c.result.t), f_has_id(c.result.t))     # GRAPH-SHAPE: a drive item has a non-empty string id
+            return z3.BoolVal(True)
+        if isinstance(c.result, VNoneT):
+            return z3.BoolVal(True)
+        if isinstance(c.result, VExt) and c.result.sort == "Json":
+            return z3.And(J_ISDICT(c.result.t), J_HAS(c.result.t, sv("folder")))   # only an object with a folder facet is returned
+        return z3.BoolVal(False)
 
     out.append(FnContract(
         target=f"{CLIENT}::SharePointRestClient._get_folder_by_path",
         params=[("self", CL), ("site_id", p_str()), ("folder_path", p_str()), ("drive_id", P_DRIVE)],
-        returns=gfp_returns, ensures=[("graph-shape", gfp_shape)], raises=listing_raises(),
-        modifies=("self",), frame=token_frame, assumed=True,
-        note="ASSUMED abstraction of the folder lookup: FP_FOUND / FP_ITEM (404 -> None; other failures: client family)",
+        returns=gfp_returns, ensures=[("returns-None-or-a-folder-item", gfp_shape), ("responses-closed", closed)],
+        raises=listing_raises(),
+        modifies=("self",), frame=token_frame,
+        note="body verified for shape and failure surface (404 -> None, everything else: client family, responses closed); "
+             "callers use the ASSUMED abstract lookup FP_FOUND / FP_ITEM for which folder the path denotes",
     ))
 
     # -- _walk_and_filter ---------------------------------------------------------------------------------------------
@@ -1829,9 +1850,145 @@ def contracts(reg):
     return part_a(reg) + part_b(reg) + part_c(reg)
 
 
-TRUSTED = []
-ASSUMED_MODELS = []
-ASSUMPTIONS = []
+# ================================================================== Part D ==
+def caches_policy(repo, tier):
+    """Dataflow / policy obligations on the real AST: the transport is used only inside `_send`; the token and
+    site-id caches are stored only in __init__ (None) and after a successful, checked response."""
+    import ast
+    from pyvc import loader
+    from pyvc.flow import MustFacts, Need, dotted, ground_obligation
+    m = loader.module(CLIENT, repo)
+    obls, fns = [], []
+    cls = "SharePointRestClient"
+    methods = {q.split(".", 1)[1]: n for q, n in m.functions.items() if q.startswith(cls + ".") and q.count(".") == 1}
 
-EXECUTOR_KW = {f"{CLIENT}::_parse_iso_datetime": {"feas_timeout_ms": 300},
-               f"{CLIENT}::SharePointRestClient.get_site_id": {"unshaped_keys": ("id",)}}
+    def G(oid, ok, why, definite=True):
+        obls.append(ground_obligation(f"C18/client.py::{oid}", ok, why, "client.py", kind="typestate", definite=definite))
+
+    # P1: responses are obtained only in _send
+    sites = [(name, n.lineno) for name, fn in methods.items() for n in ast.walk(fn)
+             if isinstance(n, ast.Call) and dotted(n.func) == "self._request"]
+    reads = [(name, n.lineno) for name, fn in methods.items() for n in ast.walk(fn)
+             if isinstance(n, ast.Attribute) and n.attr == "_request" and isinstance(n.ctx, ast.Load)]
+    G(f"{cls}/typestate#transport-called-only-in-_send", [s[0] for s in sites] == ["_send"] and [r[0] for r in reads] == ["_send"],
+      f"call sites {sites}, reads {reads}")
+    uses = [n.lineno for n in ast.walk(m.tree) if isinstance(n, ast.Name) and n.id == "urlopen" and isinstance(n.ctx, ast.Load)]
+    init = methods.get("__init__")
+    in_init = [n.lineno for n in ast.walk(init) if isinstance(n, ast.Name) and n.id == "urlopen"] if init else []
+    G(f"{cls}/typestate#urlopen-only-as-default-transport", uses == in_init and len(uses) == 1, f"uses at lines {uses}")
+
+    # P2: who stores the caches
+    def stores(attr):
+        out = []
+        for name, fn in methods.items():
+            for n in ast.walk(fn):
+                if isinstance(n, ast.Attribute) and n.attr == attr and isinstance(n.ctx, (ast.Store, ast.Del)):
+                    out.append(name)
+        return sorted(out)
+    G(f"{cls}/typestate#_access_token-stored-only-by-__init__-and-fetch_access_token",
+      stores("_access_token") == ["__init__", "fetch_access_token"], str(stores("_access_token")))
+    G(f"{cls}/typestate#_site_id-stored-only-by-__init__-and-get_site_id",
+      stores("_site_id") == ["__init__", "get_site_id"], str(stores("_site_id")))
+    dyn = [n.lineno for n in ast.walk(m.tree) if isinstance(n, ast.Call) and dotted(n.func) in ("setattr", "object.__setattr__", "vars")
+           or isinstance(n, ast.Attribute) and n.attr == "__dict__"]
+    G(f"{cls}/typestate#no-dynamic-attribute-stores", not dyn, f"lines {dyn}")
+    if init is not None:
+        consts = [ast.unparse(n.value) for n in ast.walk(init) if isinstance(n, (ast.Assign, ast.AnnAssign)) and
+                  any(isinstance(t, ast.Attribute) and t.attr in ("_access_token", "_site_id")
+                      for t in (n.targets if isinstance(n, ast.Assign) else [n.target]))]
+        G(f"{cls}.__init__/typestate#caches-start-empty", consts == ["None", "None"], str(consts))
+
+    # P3: the store is dominated by the successful request and by the check of what it returned
+    class StoreFacts(MustFacts):
+        def __init__(self, attr, needed, **kw):
+            super().__init__(**kw)
+            self.attr, self.needed = attr, needed
+
+        def stmt(self, st, facts):
+            if isinstance(st, (ast.Assign, ast.AnnAssign)):
+                tg = st.targets if isinstance(st, ast.Assign) else [st.target]
+                if any(isinstance(t, ast.Attribute) and t.attr == self.attr for t in tg):
+                    facts2 = self._expr(st.value, facts)
+                    for f in self.needed:
+                        nd = Need(st, f, f"line {st.lineno}: store of self.{self.attr} needs `{f}`")
+                        nd.ok = f in facts2
+                        self.results.append(nd)
+            return super().stmt(st, facts)
+
+    def cond_facts(var_checks):
+        def gc(test, branch):
+            src = ast.unparse(test)
+            return [fact for (text, br, fact) in var_checks if src == text and br == branch]
+        return gc
+
+    for (meth, attr, call, checks, needed) in (
+            ("fetch_access_token", "_access_token", "self._send", [("not access_token", False, "non-empty")], ["responded", "non-empty"]),
+            ("get_site_id", "_site_id", "self._get_json", [("not isinstance(site_id, str)", False, "is-str")], ["responded", "is-str"])):
+        fn = methods.get(meth)
+        if fn is None:
+            G(f"{cls}.{meth}/typestate#{attr}-assigned-only-after-successful-response", False, "method missing", definite=False)
+            continue
+        sf = StoreFacts(attr, needed, gen=lambda c, call=call: ["responded"] if dotted(c.func) == call else [],
+                        gen_cond=cond_facts(checks))
+        res = [r for r in sf.run(fn) if isinstance(r.node, (ast.Assign, ast.AnnAssign))]
+        bad = [r.desc for r in res if not r.ok]
+        G(f"{cls}.{meth}/typestate#{attr}-assigned-only-after-successful-response", bool(res) and not bad,
+          "; ".join(bad) or f"{len(res)} fact(s) established at the store", definite=bool(res) and all(
+              any(ast.unparse(n.test) == t for n in ast.walk(fn) if isinstance(n, ast.If)) for (t, _b, _f) in checks))
+        fns.append(dict(m.fn_info(f"{cls}.{meth}"), obligations=1))
+    return {"obligations": obls, "functions": []}
+
+
+EXTRA = [caches_policy]
+
+TRUSTED = [
+    "ISO-SEM: an ISO-8601 timestamp `base.frac tz` denotes `base tz` plus the fraction; 'Z' = +00:00; the first six fraction digits "
+    "right-padded with zeros are the floor of the fraction in microseconds; datetime.fromisoformat is exact on whole-second and "
+    "six-digit-fraction strings (validated natively by replay/C18.py::check_parse_assumptions, not proved)",
+    "T-DET / T-FIN / TREE-FINITE: a healthy server answers GET u with one JSON object JSON_OF(u) (same in both passes over a URL); "
+    "page chains and the folder tree are finite",
+    "GRAPH-SHAPE: a body that parses as JSON is a JSON object; `value` is an array; name / id / @odata.nextLink / access_token are "
+    "strings when present; a folder item found by path has a non-empty id (natively: `[]`, `null`, {\"value\": null} give "
+    "AttributeError / TypeError outside the client family -- outside the statement's fault kinds, reported)",
+    "URL formats (_build_children_url, folder lookup by path) are opaque functions of (site, drive, id / path): their Graph syntax is "
+    "exercised only by the replayer's fake server",
+    "PY-GEN: a generator under contract is used by its caller through the sequence it yields (eager view); interleavings are covered "
+    "natively by the fault-injection replay",
+]
+ASSUMED_MODELS = [
+    "transport `request_func`: T-ONLY raises only HTTPError / URLError or returns a response object (other exceptions, e.g. TimeoutError, "
+    "ConnectionResetError from read(), escape `_send` unchanged with all responses closed: proved as the second raises clause, "
+    "natively confirmed; they are outside the client family and outside the statement's fault kinds)",
+    "response objects: status attribute / getcode(), read(), close() (R-OK: getcode/read do not raise for the family claim)",
+    "HTTPError.code / reason / read(); the HTTPError object itself (which wraps the error response) is not closed by `_send` "
+    "(natively: fp.closed stays False) -- it is not an object `_send` obtained from the transport's return value",
+    "json.loads / json.dumps, bytes.decode, str.encode, str.lower (uninterpreted), fnmatch.fnmatch (uninterpreted), urllib.parse "
+    "urlparse / quote / urlencode (uninterpreted, total), urllib.request.Request (full_url = url given; assumed not to raise), "
+    "datetime.fromisoformat (ValueError iff not accepted)",
+    "SharePointRestClient._build_children_url (assumed abstraction), FileFilter.matches / get_target_folders at the listing level "
+    "(abstract MATCHES / target list; matches has its own contract in Part A)",
+]
+ASSUMPTIONS = [
+    "PY-STR, PY-INT, PY-EXC, PY-ORDER, PY-REC (partial correctness of the recursive walk), PY-LOG (logger calls dropped)",
+    "filter bounds are aware datetimes (instants) and server timestamps that parse carry a UTC designator / offset; a naive bound or a "
+    "naive timestamp makes FileFilter.matches raise TypeError (natively confirmed) -- excluded by precondition, not by the code",
+    "datetimes are abstracted to (microseconds, aware); extensions / patterns are lists of any length (symbolic sequences)",
+    "None and '' are both 'absent' for an @odata.nextLink (the code only tests truthiness)",
+    "structural string steps (find / split / slice / endswith on concatenations) are each justified by a solver query on the path "
+    "condition; lemma chains take-all.*, take-snoc.*, members-by-index.* are composed by transitivity outside the solver",
+    "recursive spec functions WALK / WF are meaningful on finite acyclic libraries only (TREE-FINITE)",
+]
+BOUNDED = [
+    {"what": "native replay (replay/C18.py): random libraries of depth <= 3, <= 6 items per folder, page sizes 1..4, 10 fault kinds at "
+             "every request index of 5+5 listings, 12 x 10 healthy filtered listings, 432 boundary (timestamp, bound) pairs",
+     "role": "witness search and validation of the assumed models only; no obligation is discharged by it"},
+]
+
+# path pruning only: an undecided feasibility query keeps the path (sound); short budgets keep generation fast on
+# states whose conditions contain recursive spec functions / free strings
+EXECUTOR_KW = {f"{CLIENT}::_parse_iso_datetime": {"feas_timeout_ms": 200},
+               f"{CLIENT}::SharePointRestClient.get_site_id": {"unshaped_keys": ("id",)},
+               f"{CLIENT}::SharePointRestClient._walk_drive_items": {"feas_timeout_ms": 150},
+               f"{CLIENT}::SharePointRestClient._walk_and_filter": {"feas_timeout_ms": 150},
+               f"{CLIENT}::SharePointRestClient.list_files_filtered": {"feas_timeout_ms": 150},
+               f"{CLIENT}::SharePointRestClient.list_all_files": {"feas_timeout_ms": 150}}
